@@ -80,7 +80,10 @@ class RealMaps:
 
 @contextmanager
 def reown_seam():
-    """Defect-model seam for the finding 'dispatcher cannot be generated'.
+    """Defect-model seam for the finding 'dispatcher cannot be generated'
+    (C22-dispatcher-not-generated, repaired in /repo by e1fe9f7; dormant
+    unless that defect returns - `build_dispatcher` only falls back to it
+    after the unmodified generator has failed, and says so).
 
     `EBPF.save_registers` restores the registers it saved around a helper call
     but leaves them un-owned (`call()` strips r1..r5, the final
